@@ -185,6 +185,7 @@ def cases(tier):
     for cmd in SIG.DATA_COMMANDS:
         if SIG.input_fuzz(cmd) != "fz":
             yield ("repair", cmd)
+    yield ("long",)
     for cmd in SIG.DATA_COMMANDS:
         if SIG.input_fuzz(cmd) != "fz":
             yield ("netcdf", cmd)
@@ -480,8 +481,56 @@ def _run_repair(case):
     return {"evals": max(evals, 1), "nontrivial": evals, "judged": counters["judged"], "unspecified": 0, "unstable": 0, "viols": viols, "outcomes": outcomes, "sample": sample}
 
 
+def _run_long(case):
+    """a LONG table (named sizes: 30 and 1000 rows) with ONE column of decimals: every non-fuzzy-input command on the single column"""
+    viols, outcomes = [], {}
+    counters = {"judged": 0, "unspecified": 0, "unstable": 0}
+    evals = 0
+    sample = None
+    work = snapshot.scratch_dir("c02_")
+    try:
+        for nrows in (30, 1000):
+            col = [float((r * 37) % 89) + 0.515 for r in range(nrows)]
+            col[5] = None
+            with open(os.path.join(work, "one.csv"), "w") as f:
+                f.write("F\n" + "".join("%s\n" % ("-9999" if v is None else repr(v)) for v in col))
+            table = {"F": col, "I": [0] * nrows, "G": [0.0] * nrows}
+            read = ("F", "EEMSRead", [("InFileName", ("q", "one.csv")), ("InFieldName", ("bare", "F")), ("MissingVal", ("int", "-9999"))])
+            for cmd in SIG.DATA_COMMANDS:
+                if SIG.input_fuzz(cmd) == "fz":
+                    continue
+                ins = ("F", "F") if D.arity(cmd) == "2" else ("F",)
+                params = D.presets_small(cmd, len(ins))[0]
+                cmds = [("R1", cmd, params, ins)]
+                env, unstable = _ref_eval(cmds, table)
+                text = G.render(G.items_of([read, _cmd_ast("R1", cmd, params, ins)]))[0]
+                res = _run_text(text, work)
+                evals += 1
+                tag = {"model": "F = EEMSRead(one.csv: %d rows, one column); R1 = %s%r %r" % (nrows, cmd, ins, params), "text": text}
+                sample = tag
+                if env["R1"][0] != "ok" or "R1" in unstable:
+                    counters["unspecified"] += 1
+                    continue
+                counters["judged"] += 1
+                if res[0] == "err":
+                    viols.append(V("C02:long-table:model-fails:%s" % res[1], "model on a %d-row single-column table fails with %s: %s" % (nrows, res[1], res[2]), **tag))
+                    continue
+                for n in ("F", "R1"):
+                    for kind, msg in D.compare(res[1][n], env[n][1], n == "R1", (nrows,)):
+                        viols.append(V("C02:long-table:%s:%s" % ("EEMSRead" if n == "F" else cmd, kind), "result %s on a %d-row single-column table: %s" % (n, nrows, msg), **tag))
+                        break
+                outcomes["long:ok"] = outcomes.get("long:ok", 0) + 1
+    finally:
+        import shutil
+        shutil.rmtree(work, ignore_errors=True)
+    return {"evals": max(evals, 1), "nontrivial": evals, "judged": counters["judged"], "unspecified": counters["unspecified"], "unstable": 0,
+            "viols": viols[:30], "outcomes": outcomes, "sample": sample}
+
+
 def run(case):
     case = tuple(case)
+    if case[0] == "long":
+        return _run_long(case)
     if case[0] == "netcdf":
         return _run_netcdf(case)
     if case[0] == "repair":
